@@ -430,6 +430,86 @@ def r5_one_key_space(chk, prog):
                   'no lookup in the other container between the exactness test and the dispatch')
 
 
+def r6_key_parsing(chk, prog):
+    """ArgumentKey( "spec") without a comma: the key text is the specification with its LEADING dashes removed - for
+    every specification text.  Engine C evaluates the constructor with symbolic characters; on every path that stores
+    the key (mChar = spec[ k] or mWord = spec.substr( k)) the characters in front of position k must all be known
+    dashes and k is at most 2 (a dash further inside the text, as in "x-ray", belongs to the key)."""
+    from ..bounds import Engine, Obj, St, Ptr
+    from ..lin import Lin, lin, ge, le, lt, gt, eq, entails
+    fs = [f for f in prog.functions if (f.classq or '') == 'celma::prog_args::detail::ArgumentKey' and f.d.get('ctor')
+          and f.params and 'basic_string' in f.params[0]['t']]
+    chk.require(len(fs) == 1, 'ArgumentKey( const std::string&) not found')
+    f = fs[0]
+    eng = Engine(prog, {'track_reads': True, 'track_content': True, 'inline': ('celma::prog_args::detail::',),
+                        'inline_depth': 1, 'cstring_elems': True})
+    eng.root = f.name
+    st = St()
+    for p in f.params:
+        eng.bind_param(st, f, p)
+    spec = f.params[0]['name']
+    region = spec + '.data'
+    # a specification is a text without embedded NUL characters: a non-zero character lies below its length
+    st.fields[(region, 'strlen')] = eng.string_len(st, spec)
+    st.fields[('this', 'mChar')] = lin(0)
+    finals = eng.run_ctor(f, st, [st.vars[spec]])
+    DASH = 45
+
+    def char_at(s, k):
+        """what the path knows about spec[ k]: 'dash' / 'other' / None"""
+        for g in s.ghost:
+            if g[0] == 'elem' and g[1].region == region and entails(s.cons, ge(g[1].off, k)) and \
+                    entails(s.cons, le(g[1].off, k)):
+                v = g[2]
+                if entails(s.cons, ge(v, DASH)) and entails(s.cons, le(v, DASH)):
+                    return 'dash'
+                if entails(s.cons, lt(v, DASH)) or entails(s.cons, gt(v, DASH)):
+                    return 'other'
+        return None
+    n_store = 0
+    bad = None
+    n_throw = 0
+    for s in finals:
+        if s.status == 'throw' and char_at(s, 0) is not None and not any(
+                t.startswith('find') and 'finds a position' in t for t in s.trail):
+            # rejected after looking at the first characters (no comma in the text): only "too many dashes"
+            n_throw += 1
+            lead = [char_at(s, j) for j in range(3)]
+            if lead != ['dash', 'dash', 'dash']:
+                bad = bad or 'a specification whose first characters are %s is rejected; path [%s]' % (
+                    lead, '; '.join(s.trail[-6:]))
+            continue
+        if s.status not in ('normal', 'return'):
+            continue
+        # which position of the specification became the key?
+        k = None
+        mc = s.fields.get(('this', 'mChar'))
+        if isinstance(mc, Lin) and not mc.is_const():
+            for g in s.ghost:
+                if g[0] == 'elem' and g[1].region == region and g[2] is mc:
+                    k = g[1].off
+        if k is None:
+            for e in reversed(s.wlog):
+                if e[0] == 'copy' and isinstance(e[2], Ptr) and e[2].region == region:
+                    k = e[2].off
+                    break
+        if k is None:
+            continue            # the comma form (sub-strings parsed by remove_dashes) or no store
+        if not (isinstance(k, Lin) and k.is_const()):
+            continue            # the comma form: position relative to the separator
+        n_store += 1
+        kk = int(k.c)
+        front = [char_at(s, j) for j in range(kk)]
+        if kk > 2 or any(c != 'dash' for c in front):
+            bad = bad or 'the key starts at position %d although the characters before it are %s; path [%s]' % (
+                kk, front, '; '.join(s.trail[-6:]))
+        elif char_at(s, kk) == 'dash':
+            bad = bad or 'the key starts with a dash at position %d; path [%s]' % (kk, '; '.join(s.trail[-6:]))
+    chk.require(n_store >= 6, 'ArgumentKey( string): only %d storing paths analysed' % n_store)
+    chk.check(bad is None, 'R6', f.name, 'a key specification without comma: exactly its leading dashes (at most two) '
+              'are removed, for every text', f.loc(), bad or '')
+
+
 def run(chk):
     prog, units = rules.prog_args_program()
     chk.units = units
@@ -453,3 +533,5 @@ def run(chk):
     r4_prefix(chk, prog)
     chk.rule('R5', 'the key containers of a handler form one key space (definition and lookup)', 3)
     r5_one_key_space(chk, prog)
+    chk.rule('R6', 'key parsing removes exactly the leading dashes', 1)
+    r6_key_parsing(chk, prog)
